@@ -71,6 +71,49 @@ def binary (op : String) (a b : List Nat) : String :=
   | "match" => withSelf a fun s => withSelf b fun e => showTail (fun n => s!"val {n}") (matchUpTo s e)
   | _ => "bad-op"
 
+/-- the `form` word of a `formats` / `join_fmts` line -/
+def shapeOf : String → Option FmtShape
+  | "l" => some .lit
+  | "la" => some .litArg
+  | "al" => some .argLit
+  | "lal" => some .litArgLit
+  | "a" => some .arg
+  | "ala" => some .argLitArg
+  | "laa" => some .litArgArg
+  | "aal" => some .argArgLit
+  | _ => none
+
+/-- what the harness accepts: ASCII pieces, unused run-time arguments empty, no literal in shape `a`.
+(Whether the literal is one of those COMPILED INTO the harness is the harness's table, not the
+model's business: the check only generates table literals and compares the tables.) -/
+def fmtOk (sh : FmtShape) (lit x y : List Nat) : Bool :=
+  isAscii lit && isAscii x && isAscii y &&
+    (sh.arity ≥ 2 || y.isEmpty) && (sh.arity ≥ 1 || x.isEmpty) && (sh != .arg || lit.isEmpty)
+
+/-- `formats <lit> <form> <x> <y>`: `UnixString::from_format` on a shaped `Arguments` -/
+def formats (lit : List Nat) (form : String) (x y : List Nat) : String :=
+  match shapeOf form with
+  | some sh => if fmtOk sh lit x y then showBytes "ok" (fromFormatArgs sh lit x y) else "bad-op"
+  | none => "bad-op"
+
+/-- `join_fmts <a> <lit> <form> <x> <y>`: `path_join_fmt` on a shaped `Arguments` -/
+def joinFmts (a lit : List Nat) (form : String) (x y : List Nat) : String :=
+  match shapeOf form with
+  | some sh =>
+    if fmtOk sh lit x y then withSelf a fun s => showBytes "ok" (pathJoinFmtArgs s sh lit x y) else "bad-op"
+  | none => "bad-op"
+
+def fmtLine : List String → String
+  | ["formats", lit, form, x, y] =>
+    match Drv.unhex lit, Drv.unhex x, Drv.unhex y with
+    | some lit, some x, some y => formats lit form x y
+    | _, _, _ => "bad-op"
+  | ["join_fmts", a, lit, form, x, y] =>
+    match Drv.unhex a, Drv.unhex lit, Drv.unhex x, Drv.unhex y with
+    | some a, some lit, some x, some y => joinFmts a lit form x y
+    | _, _, _, _ => "bad-op"
+  | _ => "bad-op"
+
 /-- `at <n> op a [b]`: the harness places the operands at start alignments / between surrounding bytes
 encoded by `n < 1024`.  The model has no addresses — an operand *is* its byte list — so the answer it
 gives is the one for the plain case: that the real code's result does not depend on where its
@@ -82,6 +125,11 @@ def placement (n : String) : Bool :=
 def step (u : Unit) (line : String) : Unit × String :=
   match Drv.words line with
   | ["mode", _] => (u, "ok")
+  | "formats" :: _ | "join_fmts" :: _ => (u, fmtLine (Drv.words line))
+  | "at" :: n :: "formats" :: rest =>
+    if placement n then (u, fmtLine ("formats" :: rest)) else (u, "bad-op")
+  | "at" :: n :: "join_fmts" :: rest =>
+    if placement n then (u, fmtLine ("join_fmts" :: rest)) else (u, "bad-op")
   | ["at", n, op, a] =>
     match placement n, Drv.unhex a with
     | true, some a => (u, unary op a)
